@@ -52,6 +52,10 @@ impl<'a> SendLastStateProofProcess<'a> {
         };
 
         let last_header: VerifiableHeader = self.message.last_header().to_entity().into();
+        // All total difficulties are provided by the peer: do not abort on overflow.
+        return_if_failed!(self
+            .protocol
+            .check_total_difficulty_for_headers(Some(&last_header).into_iter()));
 
         // Update the last state if the response contains a new one.
         if !original_request.is_same_as(&last_header) {
@@ -79,6 +83,9 @@ impl<'a> SendLastStateProofProcess<'a> {
             .iter()
             .map(|header| header.to_entity().into())
             .collect::<Vec<VerifiableHeader>>();
+        return_if_failed!(self
+            .protocol
+            .check_total_difficulty_for_headers(headers.iter()));
         let last_n_blocks = self.protocol.last_n_blocks() as usize;
 
         trace!(
